@@ -9,11 +9,12 @@ Local Open Scope string_scope.
 
 (* For callbacks attached to non-underscore rule names, aliases, template names and terminals:
    building with the callbacks spliced into the per-rule chain (and terminal callbacks applied at
-   shift time) equals transforming the shaped tree afterwards, for every derivation. *)
+   shift time) equals transforming the shaped tree afterwards (with visit_tokens at its default
+   True: the embedded parser installs the terminal callbacks unconditionally), for every derivation. *)
 Theorem C16_embedded_eq_posthoc T mp d :
   (forall n, starts_us n = true -> on_rule T n = None) ->
   wf_dtree mp d = true ->
-  embedded T mp d = option_map (tr T) (shape mp d).
+  embedded T mp d = option_map (tr T true) (shape mp d).
 Proof. exact (fun H => embedded_eq_posthoc T H mp d). Qed.
 Print Assumptions C16_embedded_eq_posthoc.
 
@@ -25,25 +26,28 @@ Proof. exact (driver_builds value VNone vkids (on_rule T) VTree (call_token T) m
 Print Assumptions C16_embedded_driver.
 
 (* Transformer, Transformer_NonRecursive (fuel = size of the tree suffices), Transformer_InPlace
-   and Transformer_InPlaceRecursive return the same value on every tree *)
-Theorem C16_variants_equal T n ch :
+   and Transformer_InPlaceRecursive return the same value on every tree, for both settings of the
+   constructor option visit_tokens (False: tokens are left untouched, no terminal callback runs) *)
+Theorem C16_variants_equal T (visit_tokens : bool) n ch :
   let t := Tr n ch in
   exists l1 l2 l3 l4,
-    transform_rec T t = (tr T t, l1) /\ transform_nr T t = Some (tr T t, l2) /\
-    transform_ip T t = Some (tr T t, l3) /\ transform_ipr T t = (tr T t, l4).
-Proof. exact (variants_equal T n ch). Qed.
+    transform_rec T visit_tokens t = (tr T visit_tokens t, l1) /\
+    transform_nr T visit_tokens t = Some (tr T visit_tokens t, l2) /\
+    transform_ip T visit_tokens t = Some (tr T visit_tokens t, l3) /\
+    transform_ipr T visit_tokens t = (tr T visit_tokens t, l4).
+Proof. exact (variants_equal visit_tokens T n ch). Qed.
 Print Assumptions C16_variants_equal.
 
 (* each call log is a permutation of the duplicate-free list of tree/token nodes, and the entry
    of a child precedes the entry of its parent *)
-Theorem C16_calls_once_children_first T n ch :
+Theorem C16_calls_once_children_first T (visit_tokens : bool) n ch :
   let t := Tr n ch in
-  NoDup (node_paths [] t) /\
-  once_children_first t (snd (transform_rec T t)) /\
-  (forall v lg, transform_nr T t = Some (v, lg) -> once_children_first t lg) /\
-  (forall v lg, transform_ip T t = Some (v, lg) -> once_children_first t lg) /\
-  once_children_first t (snd (transform_ipr T t)).
-Proof. exact (calls_once_children_first T n ch). Qed.
+  NoDup (node_paths visit_tokens [] t) /\
+  once_children_first visit_tokens t (snd (transform_rec T visit_tokens t)) /\
+  (forall v lg, transform_nr T visit_tokens t = Some (v, lg) -> once_children_first visit_tokens t lg) /\
+  (forall v lg, transform_ip T visit_tokens t = Some (v, lg) -> once_children_first visit_tokens t lg) /\
+  once_children_first visit_tokens t (snd (transform_ipr T visit_tokens t)).
+Proof. exact (calls_once_children_first visit_tokens T n ch). Qed.
 Print Assumptions C16_calls_once_children_first.
 
 (* Non-vacuity: a concrete tree and derivation under a symbolic transformer *)
@@ -56,12 +60,17 @@ Definition ex_d := DNode ex_r [DNode (mkR "_x" [mkSym true "A" false] None None 
 
 Example C16_example :
   (forall n, starts_us n = true -> on_rule ex_T n = None) /\
-  transform_ip ex_T ex_tree
+  transform_ip ex_T true ex_tree
   = Some (VUser "a" [VUser "A" [VTok "A" "1"]; VTree "_x" [VTok "B" "2"; VNone]; VUser "c" []],
           [[1; 0]; [0]; [1]; [2]; []]) /\
-  transform_nr ex_T ex_tree
+  transform_nr ex_T true ex_tree
   = Some (VUser "a" [VUser "A" [VTok "A" "1"]; VTree "_x" [VTok "B" "2"; VNone]; VUser "c" []],
           [[0]; [1; 0]; [1]; [2]; []]) /\
+  (* visit_tokens=False: the terminal callback A is not called and not logged *)
+  transform_nr ex_T false ex_tree
+  = Some (VUser "a" [VTok "A" "1"; VTree "_x" [VTok "B" "2"; VNone]; VUser "c" []], [[1]; [2]; []]) /\
+  transform_ip ex_T false ex_tree
+  = Some (VUser "a" [VTok "A" "1"; VTree "_x" [VTok "B" "2"; VNone]; VUser "c" []], [[1]; [2]; []]) /\
   wf_dtree true ex_d = true /\
   embedded ex_T true ex_d = Some (VUser "a" [VUser "A" [VTok "A" "a"]; VNone; VUser "c" []]).
 Proof.
